@@ -96,6 +96,30 @@ func listsClearedWhereSwept(p *Prog, r *Report, R string, filter func(rel string
 					}
 				}
 			}
+			// ... or hands the old list to a private helper that sweeps it (`closePipes(old)`)
+			if !swept {
+				for _, f := range WithClosures(home) {
+					EachInstr(f, func(i2 ssa.Instruction) {
+						c := CallOf(i2)
+						if c == nil || swept {
+							return
+						}
+						sc := c.StaticCallee()
+						if sc == nil || sc.Blocks == nil || !p.moduleFunc(sc) {
+							return
+						}
+						for _, a := range c.Args {
+							if pk := p.pkgOf(fn); pk != nil && relTypeString(a.Type(), pk.Types) == want {
+								for _, l := range p.rangeLoops(sc) {
+									if l.typ == want {
+										swept = true
+									}
+								}
+							}
+						}
+					})
+				}
+			}
 			// constructors (New…) build the object: nothing to sweep yet
 			if strings.HasPrefix(home.Name(), "New") || strings.HasPrefix(home.Name(), "new") || strings.HasPrefix(home.Name(), "init") {
 				swept = true
